@@ -115,7 +115,8 @@ Definition intruders : list peer := [Plaintext; TLSNoCert; TLSCert 7; TLSCert 8;
 
 (* ---- glue for the family "mtls": input (path peer_code announced) ; obs (answered)
    peer codes: 0 plaintext, 1 TLS no cert, 2 fresh cert, 3 other key same name, 4 a certificate issued by an authority of
-   the machine's trust store, 5 the holder of a certificate found in the host's own environment, 9 the legitimate peer, 10 the HOST's attempt against an impostor server on that path *)
+   the machine's trust store, 5 the holder of a certificate found in the host's own environment, 9 the legitimate peer, 10 the HOST's attempt against an impostor server on that path, 11 the same against an impostor that serves with the
+   certificate of a sibling plugin of the same host *)
 Definition path_of_Z (z : Z) : path :=
   match z with 0 => MainNetRPC | 1 => MainGRPC | 2 => PluginBrokered | _ => HostBrokered end%Z.
 Definition check_mtls (P : tparams) (inp obs : V) : verdict :=
@@ -127,13 +128,13 @@ Definition check_mtls (P : tparams) (inp obs : V) : verdict :=
           let announced := if ann then Some plugin_key else None in
           let legit_key := match pth with HostBrokered => plugin_key | _ => host_key end in
           let pr := (if Z.eqb x 0 then Plaintext else if Z.eqb x 1 then TLSNoCert else if Z.eqb x 2 then TLSCert 7 else if Z.eqb x 3 then TLSCert 8 else if Z.eqb x 4 then TLSCert system_key else if Z.eqb x 5 then TLSCert 9 else TLSCert legit_key) in
-          let m := if Z.eqb x 10 then client_accepts (client_cfg P announced pth) (Some impostor_server) else
+          let m := if Z.eqb x 10 || Z.eqb x 11 then client_accepts (client_cfg P announced pth) (Some impostor_server) else
                    if Z.eqb x 9
                    then server_accepts (server_cfg P announced pth) pr && client_accepts (client_cfg P announced pth) (server_cfg P announced pth)
                    else server_accepts (server_cfg P announced pth) pr in
           {| v_decoded := true; v_agree := Bool.eqb m ans;
              (* property oracle: an intruder is never answered; the legitimate pair is (when the plugin announced its certificate) *)
-             v_oracle_impl := if Z.eqb x 9 then (if ann then ans else negb ans) else negb ans;
+             v_oracle_impl := if Z.eqb x 9 then (if ann then ans else negb ans) else negb ans;  (* 10, 11: the impostor must not be answered *)
              v_oracle_model := if Z.eqb x 9 then (if ann then m else negb m) else negb m;
              v_model_obs := VL [vbool m]; v_branch := VL [VI p; VI x] |}
       | _, _ => bad_case
